@@ -394,7 +394,7 @@ func init() {
 	Register(&Engine{
 		ID:       "C14",
 		Anchors:  []string{"match.go:Hosts.Match", "match.go:Hosts.Add", "match.go:Hosts.Delete", "match.go:validOptionalPort", "match.go:Hosts.RegisterInterceptor"},
-		Cases:    func(t string) int { return map[string]int{"quick": 3000, "thorough": 80000}[t] },
+		Cases:    func(t string) int { return map[string]int{"quick": 10000, "thorough": 800000}[t] },
 		Run:      runC14,
 		Directed: c14Directed,
 		Rule: "even cases: add-only domain sets (2-20 generated domain patterns, literal fans, std interceptors, random letter case at Add) x 40 Host strings (instantiated/mutated domains with random case, ports incl. invalid ones, brackets) compared with normaliser + C02 reference resolver (accept iff resolves, params in the admissible set); odd cases: Add/Delete histories (Delete in a different case) with digit-valued witness hosts judged by the definite/maybe discipline and the 'Delete leaves the rest as before' clause; " +
